@@ -39,6 +39,7 @@ inductive Wrapper where
 /-- Scripted behaviour of the external program. -/
 inductive Tool where
   | ok | reorder | garbageEmpty | garbageRagged | garbageMissing | garbageLength | garbageTree
+  | garbageShort  -- row 1 has lost its last residue (one symbol too few); everything else intact
   | garbageSwap   -- equal row lengths, right headers; row 0 has one symbol too many, row 1 one too few (totals agree)
   | dupRecords    -- valid rows, but the record of input 0 is written twice (a dict-like reader keeps the last copy)
   | garbageExtra  -- one record more than there were inputs
@@ -410,6 +411,7 @@ def readsTree (w : Wrapper) (treeSet : Bool) : Bool :=
 def lengthDelta (t : Tool) (i : Nat) : Int :=
   match t with
   | .garbageLength => if i = 0 then 1 else 0
+  | .garbageShort => if i = 1 then -1 else 0
   | .garbageSwap => if i = 0 then 1 else if i = 1 then -1 else 0
   | _ => 0
 
@@ -423,7 +425,8 @@ def evaluate (s : St) : Except Err (Option (List Nat × List Nat)) :=
   | .base =>
     if failingExit s.tool then .error errSubprocess
     else if s.tool = .garbageEmpty ∨ s.tool = .garbageRagged ∨ s.tool = .garbageMissing ∨ s.tool = .garbageLength
-        ∨ s.tool = .garbageTree ∨ s.tool = .garbageSwap ∨ s.tool = .garbageExtra ∨ s.tool = .garbageHeader then .error errEval
+        ∨ s.tool = .garbageTree ∨ s.tool = .garbageSwap ∨ s.tool = .garbageExtra ∨ s.tool = .garbageHeader
+        ∨ s.tool = .garbageShort then .error errEval
     else .ok none
   | .localapp =>
     -- LocalApp.evaluate: `if exit_code != 0: raise SubprocessError`
